@@ -37,6 +37,9 @@ type spec struct {
 	// small tmpfs and about one litestream operation in five runs while that file system
 	// is full (every write litestream issues there fails with ENOSPC)
 	DiskFull bool `json:"disk_full,omitempty"`
+	// Kind "locks": cross-process scenario (litestream in a process of its own), see locks.go
+	Kind        string `json:"kind,omitempty"`
+	LockVariant int    `json:"lock_variant,omitempty"`
 }
 
 func init() {
@@ -98,6 +101,13 @@ func cases(run *vf.Run) ([]json.RawMessage, error) {
 			Cfg:      cfg,
 			DiskFull: true,
 		}))
+	}
+	nl := 2
+	if run.Tier == "thorough" {
+		nl = 6
+	}
+	for i := 0; i < nl; i++ {
+		out = append(out, vf.Spec(spec{Kind: "locks", LockVariant: i, Seed: vf.SubSeed(run.Seed, "C14-locks", i)}))
 	}
 	return out, nil
 }
@@ -222,6 +232,7 @@ type world struct {
 
 	ls       *litestream.DB
 	meta     string // meta directory on its own tmpfs ("" = no disk-full episodes)
+	hdrF     *os.File
 	logs     *hist.LogCapture
 	lsRng    *rand.Rand
 	lsOps    []string
@@ -292,10 +303,15 @@ func (w *world) newLS() *litestream.DB {
 // table is empty and the database header still announces WAL mode.
 func (w *world) quiescent(after string) {
 	// header bytes 18/19 (file format write/read version): 2 = WAL
-	if f, err := os.Open(w.path); err == nil {
+	// The header is read through ONE descriptor that stays open for the whole replay:
+	// closing any descriptor on the database file inside this process would drop the
+	// POSIX locks SQLite (application and litestream connections) holds on it.
+	if w.hdrF == nil {
+		w.hdrF, _ = os.Open(w.path)
+	}
+	if f := w.hdrF; f != nil {
 		hdr := make([]byte, 100)
 		_, rerr := f.ReadAt(hdr, 0)
-		f.Close()
 		if rerr == nil {
 			w.res.Evals++
 			if hdr[18] != 2 || hdr[19] != 2 {
@@ -701,6 +717,9 @@ func runCase(run *vf.Run, raw json.RawMessage, dir string) *vf.Result {
 	if err := json.Unmarshal(raw, &s); err != nil {
 		res.HarnessErr = err.Error()
 		return res
+	}
+	if s.Kind == "locks" {
+		return runLocks(s, dir, res)
 	}
 	ctx := context.Background()
 	h := genHistory(s.Seed, s.Items)
